@@ -3,6 +3,7 @@ package checks
 import (
 	"fmt"
 	"math"
+	"reflect"
 	"sort"
 	"time"
 
@@ -32,8 +33,26 @@ func cloneMP(m pc.MerkleProof) pc.MerkleProof {
 }
 
 func msiValidate(mp pc.MerkleProof, h int64, root pc.HashRange, leaf pc.Proof, levels int) (ok, replay bool, panicked interface{}) {
-	panicked = safely(func() { ok, replay = cloneMP(mp).Validate(h, root, leaf, levels) })
+	m := cloneMP(mp) // (an addressable copy: the mutation catalogue shares slices between variants)
+	panicked = safely(func() { ok, replay = m.Validate(h, root, leaf, levels) })
 	return
+}
+
+// msiValidateTwice: verification is a pure check - verifying the SAME proof object again gives the same verdict and
+// leaves the object as it was (a servicer that pre-validates its proof submits that very object afterwards).
+func msiValidateTwice(mp pc.MerkleProof, h int64, root pc.HashRange, leaf pc.Proof, levels int) (same bool, what string) {
+	m := cloneMP(mp)
+	var ok1, rp1, ok2, rp2 bool
+	if p := safely(func() { ok1, rp1 = m.Validate(h, root, leaf, levels); ok2, rp2 = m.Validate(h, root, leaf, levels) }); p != nil {
+		return false, fmt.Sprint("panic: ", p)
+	}
+	if ok1 != ok2 || rp1 != rp2 {
+		return false, fmt.Sprintf("first verification (valid=%v, replay=%v), second verification of the same object (valid=%v, replay=%v)", ok1, rp1, ok2, rp2)
+	}
+	if !reflect.DeepEqual(m, cloneMP(mp)) {
+		return false, fmt.Sprintf("verification changed the proof object: target index %d -> %d, target range %v -> %v", mp.TargetIndex, m.TargetIndex, mp.Target.Range, m.Target.Range)
+	}
+	return true, ""
 }
 
 type msiCase struct {
@@ -66,6 +85,9 @@ func c29Run(c *ev.Ctx, maxN int) {
 				ok, replay, p := msiValidate(mp, h, root, leaf, msiLevels(cnt))
 				if p != nil || !ok || replay {
 					c.Report("msi/genuine-proof-rejected/"+scheme, fmt.Sprintf("%s, %d relays, leaf index %d: the generated proof gives (valid=%v, replay=%v, panic=%v) against the generated root", scheme, cnt, idx, ok, replay, p), msiCase{Scheme: scheme, N: cnt, Index: idx})
+				}
+				if same, what := msiValidateTwice(mp, h, root, leaf, msiLevels(cnt)); !same {
+					c.Report("msi/verification-not-repeatable/"+scheme, fmt.Sprintf("%s, %d relays, leaf index %d: %s", scheme, cnt, idx, what), msiCase{Scheme: scheme, N: cnt, Index: idx})
 				}
 				if len(mp.HashRanges) != msiLevels(cnt) {
 					c.Report("msi/level-count/"+scheme, fmt.Sprintf("%s, %d relays, index %d: proof has %d levels, ceil(log2(n)) = %d", scheme, cnt, idx, len(mp.HashRanges), msiLevels(cnt)), msiCase{Scheme: scheme, N: cnt, Index: idx})
@@ -308,7 +330,7 @@ func init() {
 			if c.Tier == "thorough" {
 				maxN = 130
 			}
-			c.Rule = fmt.Sprintf("every relay count n in 5..%d (distinct relay proofs) x every leaf index < n x both hashing schemes (legacy / current): GenerateRoot + GenerateProofs (and Evidence.GenerateMerkleProof) must validate with ceil(log2 n) levels as (valid, not replay); the proof has exactly ceil(log2 n) levels", maxN)
+			c.Rule = fmt.Sprintf("every relay count n in 5..%d (distinct relay proofs) x every leaf index < n x both hashing schemes (legacy / current): GenerateRoot + GenerateProofs (and Evidence.GenerateMerkleProof) must validate with ceil(log2 n) levels as (valid, not replay), give the same verdict when the same proof object is verified again and be left unchanged by verification; the proof has exactly ceil(log2 n) levels", maxN)
 			c29Run(c, maxN)
 			c.BoundDone = fmt.Sprintf("n=5..%d, all indices, 2 hashing schemes", maxN)
 		}})
